@@ -7,7 +7,8 @@
    run; strings are lists of characters with the str/int/format semantics of lib/PyStr.v; fullmatch is lib/RegexSub.v. *)
 From Coq Require Import ZArith Bool Ascii String List.
 From Verif Require Import lib.Calendar lib.RegexSub lib.PyStr lib.DatesBase gen.DatesGen model.Dates model.Codecs
-     proofs.DatesProofs proofs.CodecsProofs gen.CodecsExtGen model.CodecsExt proofs.CodecsExtProofs.
+     proofs.DatesProofs proofs.CodecsProofs gen.CodecsExtGen model.CodecsExt proofs.CodecsExtProofs
+     model.CodecsExt2 proofs.CodecsExt2Proofs.
 Import ListNotations.
 Open Scope Z_scope.
 
@@ -100,13 +101,57 @@ Theorem C11_sheet_iso_roundtrip : forall pos blocks, Forall (block_ok in_domain)
 Proof. exact sheet_iso_roundtrip. Qed.
 Print Assumptions C11_sheet_iso_roundtrip.
 
-(* start_period_only=True: the first cell is decoded, row i is start + i (one-period block, any padding) *)
-Theorem C11_sheet_start_only_partial : forall p total, sdmx_domain p ->
-  exists x cells, export_column (fmt_period FmtSdmx) total [p] = Ok (x :: cells) /\
-    extract_block (parse_cell ParSdmx) true (p_freq p) (x :: cells)
-      = Ok (map (fun j => (j, padd p j)) (zrange 0 (S (length cells)))).
-Proof. exact sheet_start_only_sdmx. Qed.
-Print Assumptions C11_sheet_start_only_partial.
+(* start_period_only=True, in general (a block of any length, any padding `total`, SDMX and ISO codecs at every position):
+   only the first cell is decoded; the rows of the block are start + 0, start + 1, ... for EVERY data row of the sheet
+   (start_only_rows p0 n = [(0, p0 + 0); ...; (n-1, p0 + (n-1))], padding rows included); on the block's own rows the import
+   returns exactly the exported periods IF AND ONLY IF the block is a run of consecutive periods (run_from p0 n). *)
+Theorem C11_sheet_start_only_sdmx : forall b total, block_ok sdmx_domain b ->
+  exists p0 rest cells,
+    snd b = p0 :: rest /\
+    export_column (fmt_period FmtSdmx) total (snd b) = Ok cells /\
+    length cells = (length (snd b) + gen_export_padding total (length (snd b)))%nat /\
+    extract_block (parse_cell ParSdmx) true (fst b) cells = Ok (start_only_rows p0 (length cells)) /\
+    (firstn (length (snd b)) (start_only_rows p0 (length cells)) = enumerate_from 0 (snd b)
+       <-> snd b = run_from p0 (length (snd b))).
+Proof. exact sheet_start_only_sdmx_general. Qed.
+Print Assumptions C11_sheet_start_only_sdmx.
+
+Theorem C11_sheet_start_only_iso : forall pos b total, block_ok in_domain b ->
+  exists p0 rest cells,
+    snd b = p0 :: rest /\
+    export_column (fmt_period (FmtIso pos)) total (snd b) = Ok cells /\
+    length cells = (length (snd b) + gen_export_padding total (length (snd b)))%nat /\
+    extract_block (parse_cell ParIso) true (fst b) cells = Ok (start_only_rows p0 (length cells)) /\
+    (firstn (length (snd b)) (start_only_rows p0 (length cells)) = enumerate_from 0 (snd b)
+       <-> snd b = run_from p0 (length (snd b))).
+Proof. exact sheet_start_only_iso_general. Qed.
+Print Assumptions C11_sheet_start_only_iso.
+
+(* ... and the whole sheet (any number of blocks): every block is a function of its own first cell and of the number of
+   data rows of the sheet, nothing else *)
+Theorem C11_sheet_start_only_sdmx_sheet : forall blocks, Forall (block_ok sdmx_domain) blocks ->
+  exists cols, export_sheet (fmt_period FmtSdmx) blocks = Ok cols /\
+    import_sheet (parse_cell ParSdmx) true cols
+      = Ok (map (fun b => (fst b, start_only_rows (hd (mkP 0 0) (snd b))
+                   (length (snd b) + gen_export_padding (total_rows blocks) (length (snd b))))) blocks).
+Proof. exact sheet_start_only_sdmx_sheet. Qed.
+Print Assumptions C11_sheet_start_only_sdmx_sheet.
+
+Theorem C11_sheet_start_only_iso_sheet : forall pos blocks, Forall (block_ok in_domain) blocks ->
+  exists cols, export_sheet (fmt_period (FmtIso pos)) blocks = Ok cols /\
+    import_sheet (parse_cell ParIso) true cols
+      = Ok (map (fun b => (fst b, start_only_rows (hd (mkP 0 0) (snd b))
+                   (length (snd b) + gen_export_padding (total_rows blocks) (length (snd b))))) blocks).
+Proof. exact sheet_start_only_iso_sheet. Qed.
+Print Assumptions C11_sheet_start_only_iso_sheet.
+
+(* non-vacuity: a consecutive quarterly block is a run; a block with a hole is not, and its second row is read as start + 1 *)
+Example C11_start_only_example :
+  block_ok in_domain (4, [mkP 4 8084; mkP 4 8085; mkP 4 8086]) /\ block_ok in_domain (4, [mkP 4 8084; mkP 4 8086]) /\
+  [mkP 4 8084; mkP 4 8085; mkP 4 8086] = run_from (mkP 4 8084) 3 /\ [mkP 4 8084; mkP 4 8086] <> run_from (mkP 4 8084) 2 /\
+  bind (export_column (fmt_period (FmtIso PEnd)) 4 [mkP 4 8084; mkP 4 8086]) (extract_block (parse_cell ParIso) true 4)
+    = Ok [(0, mkP 4 8084); (1, mkP 4 8085); (2, mkP 4 8086); (3, mkP 4 8087)].
+Proof. exact start_only_example. Qed.
 
 (* 11. periods reached by arithmetic with Python-int or numpy-int offsets (p + k, k + p, p - k, p.shift(k), any
        history): the serial is a builtin int, the period is the one computed on plain integers, its repr text is the
